@@ -54,11 +54,43 @@ GROUPS.append(dict(STR, name="concatenate", entry="h_concatenate", unwind=16,
                               for (a, b, c) in [(1, 0, 0), (2, 1, 0), (3, 4, 0), (1, 1, 1)] for sw in (1, 2, 3, 4)],
                    functions=["sexp.c:sexp_string_concatenate_op", "sexp.c:sexp_make_string_op", "sexp.c:sexp_make_bytes_op"],
                    bound="two strings of 1..3 characters joined by a one-character separator of every UTF-8 width"))
+# `end < start` in sexp_substring_op compares two string cursors (tagged immediates held in sexp variables) with a pointer
+# relation; CBMC's pointer-relation check has no object for them and leaves every later obligation UNKNOWN.  Pointer checks are
+# therefore off in the substring groups; the memcpy preconditions (source readable, destination writable for the copied length)
+# are built-in assertions of CBMC's memcpy model and stay on.
+SUB_CBMC = ["--drop-unused-functions", "--no-signed-overflow-check", "--max-field-sensitivity-array-size", "128", "--no-pointer-check"]
+SUB_ASSUME = ["relational comparison of two tagged immediates held in sexp variables is the integer comparison of their bits (what GCC does); CBMC's pointer checks are off in this group, the memcpy model's own bounds preconditions stay on"]
+
+
+def sub_instances(by_index):
+    out = []
+    for (a, b, c) in [(1, 0, 0), (2, 1, 0), (3, 4, 1)]:
+        nch = (a > 0) + (b > 0) + (c > 0)
+        for st in range(nch + 1):
+            for en in range(st, nch + 1):
+                if en == st and st > 0:
+                    continue
+                d = {"W1": a, "W2": b, "W3": c, "SUB_S": st, "SUB_E": en}
+                if by_index:
+                    d["BY_INDEX"] = 1
+                out.append({"name": "w%d%d%d_%d_%d" % (a, b, c, st, en), "defs": d, "tiers": ["quick", "thorough"] if (a, b, c) != (3, 4, 1) or (st, en) in ((1, 3), (0, 2)) else ["thorough"]})
+    return out
+
+
+GROUPS.append(dict(STR, name="substring", entry="h_substring", unwind=16, instances=sub_instances(0), cbmc=SUB_CBMC, assumptions=STR.get("assumptions", []) + SUB_ASSUME,
+                   functions=["sexp.c:sexp_substring_op", "sexp.c:sexp_make_string_op", "sexp.c:sexp_make_bytes_op"],
+                   bound="strings of 1..3 characters (3 width patterns), every character range [start, end) enumerated; scalar values symbolic"))
+GROUPS.append(dict(STR, name="substring_index", entry="h_substring", unwind=16, instances=sub_instances(1), cbmc=SUB_CBMC, assumptions=STR.get("assumptions", []) + SUB_ASSUME,
+                   functions=["sexp.c:sexp_utf8_substring_op", "sexp.c:sexp_string_index_to_cursor", "sexp.c:sexp_substring_op"],
+                   bound="the same ranges given as character indices"))
+GROUPS.append(dict(STR, name="substring_range", entry="h_substring_range", unwind=16, cbmc=SUB_CBMC, assumptions=STR.get("assumptions", []) + SUB_ASSUME,
+                   instances=[{"name": "w%d%d%d" % p, "defs": {"W1": p[0], "W2": p[1], "W3": p[2], "SUB_S": 0, "SUB_E": 0}} for p in [(1, 0, 0), (2, 1, 0), (3, 4, 1)]],
+                   functions=["sexp.c:sexp_substring_op(range check)"], bound="cursors symbolic in -4 .. size+4"))
 META = {
  "level": "other",
  "explanation": 'mixed: the UTF-8 codec functions are proved for all scalar values; cursor/index conversion, string-set!, utf8->string! and concatenation are bounded by string shape (byte lengths enumerated, contents symbolic).',
  "trusted_base": ["CBMC 6.11.0 front end and SAT back end", "harness/prelude.h substitutions incl. kind tests on registered objects", "the independent strict UTF-8 decoder / encoder of the harness (RFC 3629) as the abstract view"],
  "assumptions": ["bounded groups: strings of up to 3 characters, UTF-8 width of each character enumerated per instance, scalar values symbolic"],
- "not_covered": ["sexp_substring_op / sexp_utf8_substring_op, sexp_string_to_utf8, sexp_c_string, string ports, string comparison", "cursor opcodes (range checks are under C01)",
+ "not_covered": ["sexp_string_to_utf8, sexp_c_string, string ports, string comparison", "cursor opcodes (range checks are under C01)",
                  "Scheme side: string-copy!, string-fill!, (chibi string), SRFI 130", "integer->char of non-scalar values (no range check in the opcode)"],
 }
